@@ -361,6 +361,26 @@ def run(ctx):
                             if any(u.startswith("file:") or not u.startswith(("http://fetch.invalid/", "suds:"))
                                    for u in asked):
                                 out.append("%s fetched: %r" % (MARK, asked))
+                        # the document the caller named is not a WSDL (a service page): that is an error, not a
+                        # reason to go looking for the WSDL somewhere else
+                        page_asked = []
+
+                        class TP(suds.transport.Transport):
+                            def open(self, request):
+                                page_asked.append(request.url)
+                                if request.url == "http://fetch.invalid/service":
+                                    return io.BytesIO(b"<html><body><a href='service?wsdl'>WSDL</a></body></html>")
+                                return io.BytesIO(wsdlkit.wsdl_doc(schema, "f", "fResponse"))
+
+                            def send(self, request):
+                                raise AssertionError("no send")
+                        try:
+                            cl = suds.client.Client("http://fetch.invalid/service", transport=TP(), cache=None)
+                            out.append(str(cl))
+                        except Exception as e:
+                            out.append(type(e).__name__)
+                        if page_asked != ["http://fetch.invalid/service"]:
+                            out.append("%s fetched: %r" % (MARK, page_asked[1:]))
                         return " ".join(out)
 
                     def ep_application_parser(reply=reply, c=c):
